@@ -195,6 +195,14 @@ func genHistory(r *rand.Rand, maxLen int) (uint64, uint64, []Item) {
 // 1..2 iterations at each; mostly against a DA layer that accepts
 func genInjects(r *rand.Rand, limit uint64) []Inject {
 	var at []Inject
+	if r.Intn(6) == 0 {
+		// sweep: a header iteration at every store call of numWaitingData's window (fetches and watermark steps —
+		// inside a watermark step only the header loop can run, the data watermark's mutex is held)
+		for k := 3; k < 3+int(limit)+4; k++ {
+			at = append(at, Inject{K: k, Subs: []SubIt{{T: "headers", SC: acceptAll()}}})
+		}
+		return at
+	}
 	for i, n := 0, 1+r.Intn(2); i < n; i++ {
 		var k int
 		switch x := r.Intn(10); {
@@ -227,7 +235,7 @@ func genInjects(r *rand.Rand, limit uint64) []Inject {
 func genInterleaved(r *rand.Rand) (uint64, uint64, []Item) {
 	init := []uint64{1, 1, 1, 2, 5}[r.Intn(5)]
 	limit := []uint64{1, 2, 3, 3, 4, 10}[r.Intn(6)]
-	pNE := []int{100, 80, 50, 0}[r.Intn(4)]
+	pNE := []int{100, 80, 50, 30, 0}[r.Intn(5)]
 	var h []Item
 	pair := func() {
 		if r.Intn(2) == 0 {
@@ -1213,6 +1221,25 @@ func hasSig(r *caseResult, sig string) bool {
 	return false
 }
 
+// second shrinking pass: drop the places inside interleaved attempts that the failure does not need
+func shrinkInjects(h []Item, fails func([]Item) bool) []Item {
+	for changed := true; changed; {
+		changed = false
+	scan:
+		for i := range h {
+			for j := range h[i].At {
+				h2 := append([]Item{}, h...)
+				h2[i].At = append(append([]Inject{}, h[i].At[:j]...), h[i].At[j+1:]...)
+				if fails(h2) {
+					h, changed = h2, true
+					break scan
+				}
+			}
+		}
+	}
+	return h
+}
+
 func caseRng(seed int64, c int) *rand.Rand { return rand.New(rand.NewSource(seed*1000003 + int64(c))) }
 
 func TestVerif(t *testing.T) {
@@ -1352,13 +1379,14 @@ func TestVerif(t *testing.T) {
 		}
 		rp := Replay{Seed: j.seed, Case: j.c, Init: init, Limit: limit, History: hist}
 		for vi, sig := range cr.viol {
-			sh := vgen.Shrink(hist, func(h []Item) bool {
+			fails := func(h []Item) bool {
 				if len(h) == 0 {
 					return false
 				}
 				r2 := runBubble(t, j.seed, j.c, init, limit, h, rootDir)
 				return r2.err == nil && hasSig(r2, sig)
-			})
+			}
+			sh := shrinkInjects(vgen.Shrink(hist, fails), fails)
 			res.Violations = append(res.Violations, vgen.Violation{Signature: sig, What: cr.what[vi], Case: ji,
 				Replay: Replay{Seed: j.seed, Case: j.c, Init: init, Limit: limit, History: sh}})
 		}
@@ -1376,7 +1404,7 @@ func TestVerif(t *testing.T) {
 		}
 	}
 	res.Distinct = len(distinct)
-	res.Rule = "real aggregator Manager (NewManager, real store/signer/publishBlockInternal) with MaxPendingHeadersAndData L in {1,2,3,10} and initial height in {1 (3/7), 2, 5, 12, 1000}; block mix per case: all-empty, all non-empty, 50% or 25% non-empty (the block at the initial height is always the stored genesis block, empty); histories of 4..maxLen items: bursts of 1..L+1 production attempts, single header / data submission iterations through the hooks (body of HeaderSubmissionLoop / DataSubmissionLoop), restarts (NewManager on the same datastore); every DA call answered truthfully from a script: accept all (40%), outage of 1..5 answers then acceptance, outage of 30..65 answers (> maxSubmitAttempts), outage until the context ends, acceptance of 1..3 blobs at a time, context cancelled at once; 80% of histories end with 2..2L+3 rounds of (header iteration, data iteration in either order against an accepting DA layer, then one production attempt) on which resumption / no-deadlock is judged; after every such pair of iterations no committed block may be left waiting; refusal-justified and limit-enforced are judged at every production attempt; plus a size-boundary stream (2 cases per run, 3 per thorough shard): limit in {255,256,257,300,1000}, idle stretches of 255/256/257/600 attempts without transactions in a row (run-length item IProduceEmptyN, expanded inside Coq) before / between blocks with transactions, DA layer healthy, 3..5 closing rounds, same oracles; all in synctest bubbles (virtual time); non-trivial = at least one block produced, one refusal and one DA call; distinct = distinct (initial height, limit, model history) terms"
+	res.Rule = "real aggregator Manager (NewManager, real store/signer/publishBlockInternal) with MaxPendingHeadersAndData L in {1,2,3,10} and initial height in {1 (3/7), 2, 5, 12, 1000}; block mix per case: all-empty, all non-empty, 50% or 25% non-empty (the block at the initial height is always the stored genesis block, empty); histories of 4..maxLen items: bursts of 1..L+1 production attempts, single header / data submission iterations through the hooks (body of HeaderSubmissionLoop / DataSubmissionLoop), restarts (NewManager on the same datastore); every DA call answered truthfully from a script: accept all (40%), outage of 1..5 answers then acceptance, outage of 30..65 answers (> maxSubmitAttempts), outage until the context ends, acceptance of 1..3 blobs at a time, context cancelled at once; 80% of histories end with 2..2L+3 rounds of (header iteration, data iteration in either order against an accepting DA layer, then one production attempt) on which resumption / no-deadlock is judged; after every such pair of iterations no committed block may be left waiting; refusal-justified and limit-enforced are judged at every production attempt; plus a size-boundary stream (2 cases per run, 3 per thorough shard): limit in {255,256,257,300,1000}, idle stretches of 255/256/257/600 attempts without transactions in a row (run-length item IProduceEmptyN, expanded inside Coq) before / between blocks with transactions, DA layer healthy, 3..5 closing rounds, same oracles; INTERLEAVED attempts (item produce_i: 1/8 of the attempts of the general histories, plus an interleaving stream of N/3 cases: limit in {1,2,3,4,10}, bursts of L-1..L+1 blocks with the header loop keeping up and the data loop lagging, then 1..3 attempts with submission iterations inside, restarts, closing rounds): the store handed to the Manager is wrapped and at chosen store calls of publishBlockInternal (reads of numPendingHeaders / numPendingData / getPending, the fetches and watermark steps of numWaitingData, the calls of block building up to SetHeight) 1..2 header / data iterations (70% against an accepting DA layer, else any script) run synchronously before the call proceeds, or a header iteration at every call of numWaitingData's window; the point is classified from the call stack and handed to the model as a ThrottleConc.sched; oracle for such an attempt: a refusal needs L blocks waiting when the attempt BEGAN (it may be out of date when it returns), a refused attempt with an accepted header and data iteration inside leaves nothing waiting, and any later refusal with fewer than L blocks waiting is reported as refused-again-after-stale-refusal; all in synctest bubbles (virtual time); non-trivial = at least one block produced, one refusal and one DA call; distinct = distinct (initial height, limit, model history) terms"
 	res.Cases = len(cases)
 	header := "From Coq Require Import NArith List Bool.\nFrom Verif Require Import Model.Throttle Model.ThrottleConc Check.ThrottleCheck."
 	path := filepath.Join(e.Out, "cases_C08.v")
